@@ -472,10 +472,16 @@ func r203(c *Ctx) {
 		for _, cs := range callsTo(run, wrc) {
 			call := cs.instr.(*ssa.Call)
 			okRun = true
-			for _, ret := range normalReturns(run) {
-				if lastRet(ret) != ssa.Value(call) {
-					okRun = false
+			for _, rc := range retCases(run) {
+				v := rc.vals[len(rc.vals)-1]
+				if resolve(v) == ssa.Value(call) || nonNilSource(v) == ssa.Value(call) {
+					continue
 				}
+				// (success reported only when the exchange is known to have succeeded: `if err != nil { return err }; ...; return nil`)
+				if okNil, _ := nilKnowledgeOf(rc.conds, sameAs(call)); isNilConst(v) && okNil {
+					continue
+				}
+				okRun = false
 			}
 			if fnIdx >= 0 && fnIdx < len(call.Call.Args) {
 				closure = closureFunc(call.Call.Args[fnIdx])
